@@ -31,6 +31,7 @@ type c14Event struct {
 type c14Case struct {
 	Model string     `json:"model"` // p2small, p2large, p1
 	Path  []c14Event `json:"path,omitempty"` // nil: full search; else replay this event sequence from the initial state
+	Dec   *decProtoCase `json:"dec,omitempty"` // operation sequences on one exported Decoder object (decproto.go)
 }
 
 // content variants
@@ -627,6 +628,15 @@ func init() {
 			g.Emit(&c14Case{Model: "p1-disk"})
 			g.Emit(&c14Case{Model: "p1full"})
 			g.Emit(&c14Case{Model: "p1vol99"})
+			// the staged exported API behind Verify / Repair: every operation sequence on ONE Decoder object
+			depth, diskDepth := 6, 4
+			if g.Thorough() {
+				depth, diskDepth = 7, 5
+			}
+			for _, f := range []string{"p2", "p1"} {
+				decProtoGen(f, depth, false, func(d *decProtoCase) { g.Emit(&c14Case{Model: "decproto", Dec: d}) })
+				decProtoGen(f, diskDepth, true, func(d *decProtoCase) { g.Emit(&c14Case{Model: "decproto", Dec: d}) })
+			}
 			if g.Thorough() {
 				g.Emit(&c14Case{Model: "p1full-disk"})
 				g.Emit(&c14Case{Model: "p1vol99-disk"})
@@ -637,6 +647,10 @@ func init() {
 		},
 		Run: func(ci interface{}, r *core.Rec) {
 			c := ci.(*c14Case)
+			if c.Dec != nil {
+				decProtoRun(c.Dec, r, func(d *decProtoCase) interface{} { return &c14Case{Model: "decproto", Dec: d} })
+				return
+			}
 			m := c14Build(c.Model, r.Seed)
 			if c.Path == nil {
 				c14Search(m, r)
